@@ -294,7 +294,7 @@ def check_prog(case):
                 best = problems if best is None else best
             if best:
                 key = "text-content-wrong"
-                m = re.search(r"text '(-?\d+)', value \('enum', '(\w+)', (-?\d+)\)", best[0])
+                m = re.search(r"text '(-?\d+)', value \('enum', '([\w.]+)', (-?\d+)\)", best[0])
                 if m and sem.enum_signed(prog.module.enum(m.group(2))) and int(m.group(1)) - int(m.group(3)) in (256, 65536, 1 << 32):
                     key = "signed-enum-narrow"
                 viol.append({"key": key, "msg": "buffer=%s text=%s: %s" % (hx, text[:200], best[0]),
